@@ -373,6 +373,7 @@ def check(db, rep):
     _recursion_semantics(db, rep)
     _filter_semantics(db, rep)
     _normalise_order(db, rep)
+    _normalise_meaning(db, rep)
 
 
 def _guard(rule, inst, fn_):
@@ -776,3 +777,262 @@ def _normalise_order(db, rep):
         r9.ok('Quantifier:enum-then-tuple', 'a tuple pattern left as the declaration after the split is normalised', '%s:%d' % (q.file, q.line))
     else:
         r9.violation('Quantifier:enum-then-tuple', '%s:%d' % (q.file, q.line), 'after EnumDeclaration splits `Q (a,b),(c,d) in S` the outer quantifier keeps the tuple pattern (a,b) and no path normalises it: a and b stay unbound (the formula evaluates to a wrong truth value)')
+
+
+# ---------------------------------------------------------------------------------------------- r10: normalisation preserves the meaning
+class _Unbound(Exception):
+    pass
+
+
+class _RefEval:
+    """reference semantics of RSLang trees (descriptors (KIND, data, [children])), with tuple and enumerated binders taken as written.
+    One value slot per local name, as in the library's evaluator: binding a name that is live in an enclosing scope is recorded."""
+    def __init__(self, globals_, funcs=None):
+        self.G = globals_
+        self.funcs = funcs or {}
+        self.shadowed = set()
+        self.steps = 0
+
+    def bind(self, decl, v, env):
+        k, data, ch = decl
+        if k == 'ID_LOCAL':
+            if data in env:
+                self.shadowed.add(data)
+            env[data] = v
+        elif k in ('NT_TUPLE_DECL', 'NT_TUPLE'):
+            if not isinstance(v, tuple) or len(v) != len(ch):
+                raise _Unbound('pattern %s does not match the value %r' % (decl, v))
+            for c, x in zip(ch, v):
+                self.bind(c, x, env)
+        else:
+            raise _Unbound('declaration of kind %s' % k)
+
+    def ev(self, d, env):
+        self.steps += 1
+        if self.steps > 200000:
+            raise _Unbound('evaluation does not terminate')
+        k, data, ch = d
+        E = lambda i, e=env: self.ev(ch[i], e)
+        if k == 'ID_LOCAL':
+            if data not in env:
+                raise _Unbound('local variable %s is not bound' % data)
+            return env[data]
+        if k == 'ID_GLOBAL':
+            return self.G[data]
+        if k == 'LIT_INTEGER':
+            return data
+        if k == 'LIT_EMPTYSET':
+            return frozenset()
+        if k == 'NT_TUPLE':
+            return tuple(E(i) for i in range(len(ch)))
+        if k == 'NT_ENUMERATION':
+            return frozenset(E(i) for i in range(len(ch)))
+        if k == 'SMALLPR':
+            v = E(0)
+            if len(data) == 1:
+                return v[data[0] - 1]
+            return tuple(v[i - 1] for i in data)
+        if k in ('EQUAL', 'NOTEQUAL'):
+            return (E(0) == E(1)) == (k == 'EQUAL')
+        if k in ('LESSER', 'GREATER', 'LESSER_OR_EQ', 'GREATER_OR_EQ'):
+            a, b = E(0), E(1)
+            return {'LESSER': a < b, 'GREATER': a > b, 'LESSER_OR_EQ': a <= b, 'GREATER_OR_EQ': a >= b}[k]
+        if k in ('PLUS', 'MINUS', 'MULTIPLY'):
+            a, b = E(0), E(1)
+            return a + b if k == 'PLUS' else a - b if k == 'MINUS' else a * b
+        if k in ('IN', 'NOTIN'):
+            return (E(0) in E(1)) == (k == 'IN')
+        if k == 'AND':
+            return bool(E(0)) and bool(E(1))
+        if k == 'OR':
+            return bool(E(0)) or bool(E(1))
+        if k == 'IMPLICATION':
+            return (not E(0)) or bool(E(1))
+        if k == 'EQUIVALENT':
+            return bool(E(0)) == bool(E(1))
+        if k == 'NOT':
+            return not E(0)
+        if k == 'CARD':
+            return len(E(0))
+        if k == 'UNION':
+            return E(0) | E(1)
+        if k == 'DECART':
+            import itertools
+            return frozenset(itertools.product(*[sorted(E(i), key=repr) for i in range(len(ch))]))
+        if k in ('FORALL', 'EXISTS'):
+            decl, dom, body = ch
+            domain = sorted(self.ev(dom, env), key=repr)
+            decls = decl[2] if decl[0] == 'NT_ENUM_DECL' else [decl]
+
+            def go(i, e):
+                if i == len(decls):
+                    return bool(self.ev(body, e))
+                res = []
+                for v in domain:
+                    e2 = dict(e)
+                    self.bind(decls[i], v, e2)
+                    res.append(go(i + 1, e2))
+                return all(res) if k == 'FORALL' else any(res)
+            return go(0, env)
+        if k == 'NT_DECLARATIVE_EXPR':
+            decl, dom, pred = ch
+            out = set()
+            for v in sorted(self.ev(dom, env), key=repr):
+                e2 = dict(env)
+                self.bind(decl, v, e2)
+                if self.ev(pred, e2):
+                    out.add(v)
+            return frozenset(out)
+        if k == 'NT_IMPERATIVE_EXPR':
+            result, blocks = ch[0], ch[1:]
+            out = set()
+
+            def run(i, e):
+                if i == len(blocks):
+                    out.add(self.ev(result, e))
+                    return
+                b = blocks[i]
+                if b[0] == 'ITERATE':
+                    for v in sorted(self.ev(b[2][1], e), key=repr):
+                        e2 = dict(e)
+                        self.bind(b[2][0], v, e2)
+                        run(i + 1, e2)
+                elif b[0] == 'ASSIGN':
+                    e2 = dict(e)
+                    self.bind(b[2][0], self.ev(b[2][1], e), e2)
+                    run(i + 1, e2)
+                elif self.ev(b, e):
+                    run(i + 1, e)
+            run(0, env)
+            return frozenset(out)
+        if k in ('NT_RECURSIVE_FULL', 'NT_RECURSIVE_SHORT'):
+            decl, init = ch[0], ch[1]
+            cur = self.ev(init, env)
+            for _ in range(12):
+                e2 = dict(env)
+                self.bind(decl, cur, e2)
+                if k == 'NT_RECURSIVE_FULL' and not self.ev(ch[2], e2):
+                    break
+                new = self.ev(ch[-1], e2)
+                if k == 'NT_RECURSIVE_SHORT' and new == cur:
+                    break
+                cur = new
+            return cur
+        if k == 'NT_FUNC_CALL':
+            name = ch[0][1]
+            fdef = self.funcs[name]                       # PUNC_DEFINE(name, NT_FUNC_DEFINITION(NT_ARGUMENTS(NT_ARG_DECL(x, dom)...), body))
+            params = [a[2][0][1] for a in fdef[2][1][2][0][2]]
+            vals = [self.ev(c, env) for c in ch[1:]]
+            return self.ev(fdef[2][1][2][1], dict(zip(params, vals)))   # the body sees only its parameters: lexical scope of the definition
+        raise _Unbound('node kind %s outside the reference semantics' % k)
+
+
+def _show_tree(d):
+    k, v, ch = d
+    nm = {'ID_LOCAL': '', 'ID_GLOBAL': '', 'LIT_INTEGER': ''}.get(k, k)
+    if not ch:
+        return str(v) if v is not None else k
+    return '%s%s(%s)' % (nm, '' if v is None else list(v) if isinstance(v, tuple) else '[%s]' % v, ', '.join(_show_tree(c) for c in ch))
+
+
+def _normalise_cases():
+    L = lambda n: ('ID_LOCAL', n, [])
+    Gl = lambda n: ('ID_GLOBAL', n, [])
+    I = lambda v: ('LIT_INTEGER', v, [])
+    T = lambda *c: ('NT_TUPLE', None, list(c))
+    TD = lambda *c: ('NT_TUPLE_DECL', None, list(c))
+    ED = lambda *c: ('NT_ENUM_DECL', None, list(c))
+    B = lambda k, a, b: (k, None, [a, b])
+    D = lambda decl, dom, pred: ('NT_DECLARATIVE_EXPR', None, [decl, dom, pred])
+    Q = lambda k, decl, dom, body: (k, None, [decl, dom, body])
+    IT = lambda decl, dom: ('ITERATE', None, [decl, dom])
+    AS = lambda decl, e: ('ASSIGN', None, [decl, e])
+    IMP = lambda res, *blocks: ('NT_IMPERATIVE_EXPR', None, [res] + list(blocks))
+    AND = lambda a, b: B('AND', a, b)
+    true_of = lambda x: B('EQUAL', x, x)
+    cases = [
+        ('tuple binder of a quantifier', Q('FORALL', TD(L('a'), L('b')), Gl('S1'), B('LESSER', L('a'), L('b'))), {}),
+        ('nested tuple pattern', D(TD(L('a'), TD(L('b'), L('c'))), Gl('S2'), B('EQUAL', L('a'), L('c'))), {}),
+        ('enumerated declaration', Q('EXISTS', ED(L('a'), L('b'), L('c')), Gl('C1'), AND(B('LESSER', L('a'), L('b')), B('LESSER', L('b'), L('c')))), {}),
+        ('enumerated declaration of tuple patterns', Q('FORALL', ED(TD(L('a'), L('b')), TD(L('c'), L('d'))), Gl('S3'), B('IMPLICATION', B('EQUAL', L('a'), L('c')), B('EQUAL', L('b'), L('d')))), {}),
+        ('the domain of a set-builder binds the same name', D(TD(L('a'), L('b')), D(L('a'), Gl('S1'), B('EQUAL', L('a'), T(I(1), I(2)))), B('LESSER', L('a'), L('b'))), {}),
+        ('the domain of a set-builder binds the same name (product)', D(TD(L('a'), L('b')), ('DECART', None, [D(L('a'), Gl('C1'), true_of(L('a'))), Gl('C1')]), B('EQUAL', L('a'), L('b'))), {}),
+        ('the domain of a quantifier binds the same name', Q('EXISTS', TD(L('a'), L('b')), D(L('a'), Gl('S1'), B('EQUAL', L('a'), T(I(3), I(4)))), B('LESSER', L('a'), L('b'))), {}),
+        ('an earlier block of an imperative binds the same name', IMP(L('x'), IT(L('x'), Gl('C1')), Q('FORALL', L('a'), Gl('C1'), true_of(L('a'))), IT(TD(L('a'), L('b')), Gl('S1')), B('LESSER', L('a'), L('b'))), {}),
+        ('the own domain of an imperative block binds the same name', IMP(L('a'), IT(TD(L('a'), L('b')), D(L('a'), Gl('S1'), true_of(L('a')))), B('LESSER', L('a'), L('b'))), {}),
+        ('imperative result is the pattern', IMP(T(L('b'), L('a')), IT(TD(L('a'), L('b')), Gl('S1')), AS(L('c'), L('a')), B('LESSER', L('c'), I(3))), {}),
+        ('imperative result is a bare component', IMP(L('b'), IT(TD(L('a'), L('b')), Gl('S1'))), {}),
+        ('two patterns whose component names concatenate to the same text', D(TD(L('a'), L('bc')), Gl('S1'), AND(Q('FORALL', TD(L('ab'), L('c')), Gl('S1'), B('LESSER', L('ab'), L('c'))), AND(B('EQUAL', L('a'), I(1)), B('EQUAL', L('bc'), I(2))))), {}),
+        ('an enumerated declaration whose domain binds a name of its first pattern', Q('FORALL', ED(TD(L('a'), L('b')), L('c')), D(L('a'), Gl('S1'), true_of(L('a'))), AND(B('LESSER', L('a'), L('b')), true_of(L('c')))), {}),
+        ('an imperative whose guard block binds a name of a later pattern', IMP(T(L('a'), L('b')), Q('EXISTS', L('a'), Gl('C1'), true_of(L('a'))), IT(TD(L('a'), L('b')), Gl('S1'))), {}),
+        ('recursion over a tuple', ('NT_RECURSIVE_FULL', None, [TD(L('a'), L('b')), T(I(0), I(1)), B('LESSER', L('a'), I(3)), T(B('PLUS', L('a'), I(1)), B('MULTIPLY', L('b'), I(2)))]), {}),
+        ('short recursion over a tuple', ('NT_RECURSIVE_SHORT', None, [TD(L('a'), L('b')), T(I(0), I(5)), T(L('b'), L('b'))]), {}),
+    ]
+    fdef = ('PUNC_DEFINE', None, [('ID_FUNCTION', 'F1', []), ('NT_FUNC_DEFINITION', None, [('NT_ARGUMENTS', None, [('NT_ARG_DECL', None, [L('a'), Gl('C1')])]), D(L('x'), Gl('C1'), B('NOTEQUAL', L('x'), L('a')))])])
+    call = lambda arg: ('NT_FUNC_CALL', None, [('ID_FUNCTION', 'F1', []), arg])
+    cases.append(('a term-function inlined under a binder', D(L('y'), Gl('C1'), B('EQUAL', ('CARD', None, [call(L('y'))]), I(2))), {'F1': fdef}))
+    cases.append(('a term-function inlined where the caller uses the name the inliner invents', D(L('__var1'), Gl('C1'), B('EQUAL', ('CARD', None, [call(L('__var1'))]), I(2))), {'F1': fdef}))
+    cases.append(('a term-function inlined twice', D(L('y'), Gl('C1'), B('EQUAL', call(L('y')), call(L('y')))), {'F1': fdef}))
+    cases.append(('a term-function whose argument uses its parameter name', D(L('a'), Gl('C1'), B('EQUAL', ('CARD', None, [call(L('a'))]), I(2))), {'F1': fdef}))
+    return cases
+
+
+def _normalise_meaning(db, rep):
+    r10 = rep.rule('r10', 'NORMALISE-MEANING: the normalised tree denotes the value of the tree as written - every variable stays bound to its own binder, and an invented name never collides with a live one', 10)
+    normalise_meaning_rule(db, r10)
+
+
+def normalise_meaning_rule(db, r10):
+    """r10 (shared with C02 r8): Normalizer::Normalize interpreted from its source (with SyntaxTree::Node's editing operations) on trees with tuple and
+    enumerated binders, nested binders re-using names, imperative blocks, recursions and inlined term-functions; the result, evaluated by
+    reference semantics with one slot per local name (the library evaluator's storage model), must give the value of the tree as written."""
+    from engine.models.treemodel import TreeEval
+    try:
+        te = TreeEval(db)
+    except OutOfFragment as e:
+        r10.broken('tree harness: %s' % e)
+        return
+    nz = db.fn(NS + 'Normalizer::Normalize', required=False)
+    where = '%s:%d' % (nz.file, nz.line) if nz is not None else ''
+    Gm = {'C1': frozenset({1, 2, 3}), 'S1': frozenset({(1, 2), (3, 4)}), 'S2': frozenset({(1, (2, 1)), (2, (2, 3))}), 'S3': frozenset({(1, 2), (1, 3), (2, 2)})}
+    for name, tree, funcs in _normalise_cases():
+        inst = name
+        try:
+            ref0 = _RefEval(Gm, funcs)
+            v0 = ref0.ev(tree, {})
+        except _Unbound as e:
+            r10.broken('case `%s` is not evaluable as written: %s' % (name, e))
+            continue
+        try:
+            t1, problems = te.normalize(tree, funcs)
+        except OutOfFragment as e:
+            msg = str(e)
+            if 'loop bound' in msg or 'step budget' in msg or 'recursion depth' in msg:
+                r10.violation(inst, where, 'normalising %s does not terminate (%s)' % (_show_tree(tree), msg))
+            elif 'bad_variant_access' in msg or 'out of range' in msg or 'missing key' in msg:
+                r10.violation(inst, where, 'normalising %s faults: %s' % (_show_tree(tree), msg))
+            else:
+                r10.broken('Normalizer outside the evaluable fragment on `%s`: %s' % (name, msg))
+            continue
+        try:
+            ref1 = _RefEval(Gm, funcs)
+            v1 = ref1.ev(t1, {})
+            extra = ref1.shadowed - ref0.shadowed
+            if v1 != v0:
+                r10.violation(inst, where, '%s has the value %s; normalised to %s it has the value %s' % (_show_tree(tree), _show_val(v0), _show_tree(t1), _show_val(v1)))
+            elif extra:
+                r10.violation(inst, where, '%s is normalised to %s, where the name %s is bound again while an enclosing binder of that name is live: the evaluator keeps one slot per name, so the inner binder overwrites the outer value' % (_show_tree(tree), _show_tree(t1), sorted(extra)))
+            elif problems:
+                r10.violation(inst, where, 'normalising %s leaves a broken parent link: %s' % (_show_tree(tree), problems[0]))
+            else:
+                r10.ok(inst, '%s = %s before and after' % (_show_tree(tree)[:90], _show_val(v0)), where)
+        except _Unbound as e:
+            r10.violation(inst, where, '%s is normalised to %s, in which %s' % (_show_tree(tree), _show_tree(t1), e))
+
+
+def _show_val(v):
+    if isinstance(v, frozenset):
+        return '{' + ', '.join(sorted(_show_val(x) for x in v)) + '}'
+    if isinstance(v, tuple):
+        return '(' + ', '.join(_show_val(x) for x in v) + ')'
+    return str(v)
